@@ -10,6 +10,8 @@ import CobaVerif.Lemmas.C05Module
 import CobaVerif.Generated.C05Source
 import CobaVerif.Lemmas.C05Reservoir
 import CobaVerif.Generated.C05Reservoir
+import CobaVerif.Lemmas.C05Filters
+import CobaVerif.Generated.C05Filters
 
 namespace Coba.C05
 
@@ -387,5 +389,61 @@ drop one uniform per batch; replayed on the real code by the corpus (Reservoir r
 theorem reservoir_walk_counterexample : batchedTriples 64 1 2 ≠ streamTriples 1 42 := reservoir_walk_counterexample'
 
 example : (batchedTriples (3 * 20) 1 3).length = 60 := by decide +kernel
+
+/-! ### Phase 6: the filters that own a generator (`pipes.filters.Shuffle`, every path of `pipes.filters.Reservoir`) and histories of
+`filter` calls (read, abandon, read again, read a sibling) -/
+
+/-- translator obligation: what the model assumes about `Shuffle.filter` and `Reservoir.filter` (generator created inside the call from
+`self._seed`; `Shuffle` copies its input and shuffles the copy in place; `count == 0` tested first; `count is None` shuffles a copy;
+`islice(items,count)` fills the reservoir; `len(reservoir) < count` → `[] if strict else` in-place shuffle) as read off
+coba/pipes/filters.py by `ast` on this run -/
+theorem filters_source_match : Coba.Generated.C05.fltNums = fltNums := by decide
+
+/-- `Shuffle(seed).filter(range(n))` is what the method `shuffle` of a NEW `CobaRandom(seed)` returns, and a permutation of its input -/
+theorem shuffle_filter_is_seed_stream (s n : Nat) :
+    fltOut (.shuffle s) n = .items (shuffleFilter s n) ∧
+    (step (fresh s).g (.shuffle n)).2 = .perm (shuffleFilter s n) ∧ (shuffleFilter s n).Perm (List.range n) :=
+  shuffle_filter_is_seed_stream' s n
+
+/-- `Reservoir(None,strict,seed)` is `Shuffle(seed)`, for every input length and either `strict` -/
+theorem reservoir_none_is_shuffle (strict : Bool) (s n : Nat) :
+    fltOut (.reservoir none strict s) n = fltOut (.shuffle s) n := reservoir_none' strict s n
+
+/-- `Reservoir(0,…)` yields nothing -/
+theorem reservoir_zero_empty (strict : Bool) (s n : Nat) : fltOut (.reservoir (some 0) strict s) n = .items [] :=
+  reservoir_zero' strict s n
+
+/-- fewer items than `count`: the non-strict reservoir is `Shuffle(seed)` of what there is, the strict one is empty -/
+theorem reservoir_short (c s n : Nat) (h : n < c) :
+    fltOut (.reservoir (some c) false s) n = fltOut (.shuffle s) n ∧ fltOut (.reservoir (some c) true s) n = .items [] :=
+  reservoir_short' c s n h
+example : (3 : Nat) < 5 := by decide
+
+/-- at least `count` items (strict or not): the reservoir starts as the seed's shuffle of the first `count` items — a permutation of
+them — and Algorithm L is fed with the consecutive triples of the seed's stream from where the shuffle left it (`count-1` draws in),
+for every batch size and number of batches -/
+theorem reservoir_full_walk (c : Nat) (strict : Bool) (s n b k : Nat) (hc : 0 < c) (h : c ≤ n) :
+    fltOut (.reservoir (some c) strict s) n = .walk (reservoirWalk s c b k).1 (adv s (c - 1)) ∧
+    (reservoirWalk s c b k).2 = streamTriples (adv s (c - 1)) (b * k) ∧
+    (reservoirWalk s c b k).1.Perm (List.range c) := reservoir_full' c strict s n b k hc h
+example : (0 : Nat) < 3 ∧ (3 : Nat) ≤ 3 := by decide
+
+/-- the hypothesis `count ≤ n` of `reservoir_full_walk` is needed: with fewer items there is no walk -/
+theorem reservoir_full_walk_counterexample : fltOut (.reservoir (some 3) false 1) 2 = .items (shuffleFilter 1 2) :=
+  (reservoir_short' 3 1 2 (by decide)).1
+
+/-- histories of `filter` calls on any collection of filter objects: the answer to every call is the answer of that object to that
+input, whatever calls (finished or abandoned, on the same object, on a sibling with the same or another seed) surround it -/
+theorem filter_history_pure (objs : List Flt) (pre post : List (Nat × Nat)) (o n : Nat) :
+    fltRun objs (pre ++ (o, n) :: post) = fltRun objs pre ++ fltAt objs o n :: fltRun objs post :=
+  filter_history_pure' objs pre post o n
+
+theorem filter_history_length (objs : List Flt) (h : List (Nat × Nat)) : (fltRun objs h).length = h.length :=
+  filter_history_length' objs h
+
+/-- whatever list a filter hands out is empty or a permutation of its whole input (nothing invented, lost or duplicated) -/
+theorem filter_items_perm (f : Flt) (n : Nat) (l : List Nat) (h : fltOut f n = .items l) : l = [] ∨ l.Perm (List.range n) :=
+  fltOut_items_sub' f n l h
+example : fltOut (.shuffle 1) 3 = .items (shuffleFilter 1 3) := rfl
 
 end Coba.C05
